@@ -56,7 +56,7 @@ var (
 
 func rsaKey(i int) jwk.Key {
 	rsaOnce.Do(func() {
-		for _, p := range []string{rsaPEM2048, rsaPEM3072} {
+		for _, p := range []string{rsaPEM2048, rsaPEM3072, rsaPEM4096, rsaPEM8192} {
 			blk, _ := pem.Decode([]byte(p))
 			k, err := x509.ParsePKCS1PrivateKey(blk.Bytes)
 			if err != nil {
